@@ -604,7 +604,7 @@ def build(x):
                 let ghost cq_old = costs@;""")
     ra.insert_after(r"costs\.push\w*\(key_vertex_id, [^;]*\);", """                proof {
                     fs = fs.insert(key_vertex_id, f_score_value);
-                    assert forall|v: VertexId| #[trigger] costs@.contains_key(v) implies fs.contains_key(v) && !c_lt(fs[v], costs@[v]) by {
+                    /*verif:obligation (invariant Q for the new queue)*/ assert forall|v: VertexId| #[trigger] costs@.contains_key(v) implies fs.contains_key(v) && !c_lt(fs[v], costs@[v]) by {
                         if v != key_vertex_id { assert(cq_old.contains_key(v)); assert(costs@[v] == cq_old[v]); }
                     }
                     let g = &si.directed_graph; let fm = &si.frontier_model;
@@ -654,7 +654,7 @@ def build(x):
                 else { assert(e_old.contains(v)); }
             }
         }""")
-    ra.insert_after(r"iterations \+= 1;", "        proof { assert(limit_ok(&si.termination_model, tested_size, (iterations - 1) as nat)); }")
+    ra.insert_after(r"iterations \+= 1;", "        proof { /*verif:obligation (CNT)*/ assert(limit_ok(&si.termination_model, tested_size, (iterations - 1) as nat)); }")
     parts.append(ra.text + "\n\n" + adv.text + "\n\n" + gl.text + "\n")
     parts.append(LEMMAS)
     parts.append("""
